@@ -139,6 +139,12 @@ pub enum Sel {
     MoTu,
     /// `We-Su`
     WeSu,
+    /// `Mo,We`: two disjoint entries in the weekday group
+    MoWe,
+    /// `Jan,Jun`: two disjoint entries in the month group
+    JanJun,
+    /// `Fr,Mo`: two entries, the first one after the second
+    FrMo,
 }
 
 impl Sel {
@@ -217,6 +223,18 @@ impl Sel {
             Sel::Y1900To2024 => ds.year.push(YearRange { range: Year(1900)..=Year(2024), step: 1 }),
             Sel::MoTu => ds.weekday.push(wd(Weekday::Mon, Weekday::Tue)),
             Sel::WeSu => ds.weekday.push(wd(Weekday::Wed, Weekday::Sun)),
+            Sel::MoWe => {
+                ds.weekday.push(wd(Weekday::Mon, Weekday::Mon));
+                ds.weekday.push(wd(Weekday::Wed, Weekday::Wed));
+            }
+            Sel::JanJun => {
+                ds.monthday.push(MonthdayRange::Month { range: Month::January..=Month::January, year: None });
+                ds.monthday.push(MonthdayRange::Month { range: Month::June..=Month::June, year: None });
+            }
+            Sel::FrMo => {
+                ds.weekday.push(wd(Weekday::Fri, Weekday::Fri));
+                ds.weekday.push(wd(Weekday::Mon, Weekday::Mon));
+            }
             Sel::Su2 => ds.weekday.push(WeekDayRange::Fixed {
                 range: Weekday::Sun..=Weekday::Sun,
                 offset: 0,
@@ -249,6 +267,9 @@ impl Sel {
             Sel::Su => offset == -3,
             Sel::MoTu => offset == -2 || offset == -1,
             Sel::WeSu => offset == -3 || offset >= 0,
+            Sel::MoWe => offset == -2 || offset == 0,
+            Sel::JanJun => true,
+            Sel::FrMo => offset == -2 || offset == 2,
             Sel::SaTu => offset <= -1 || offset == 3,
             Sel::NovFeb | Sel::JulFrTh => false,
             Sel::JunWe | Sel::Y2024We => offset == 0,
